@@ -3,6 +3,7 @@ the virtual environment) and on the Lean model, compare the property's
 projection, evaluate the property's direct oracle on the real observations."""
 from __future__ import annotations
 
+import os
 import random
 import re
 import signal
@@ -144,6 +145,12 @@ def project(lines: list[str], keep: dict) -> list[str]:
 
 def run(res: Result, scenarios: list[str], keep: dict, oracle, label: str = ""):
     """Returns (oracle failures, divergences)."""
+    # every scenario (every second one in the quick tier) also runs on the real node under the alternative schedule in
+    # which writer and I/O loop run as soon as a message is queued; those runs are judged by the direct oracle only
+    plain = [l for l in scenarios if ";eager=1" not in l.split("|")[0]]
+    if len(plain) == len(scenarios):
+        step = 1 if (res.tier != "quick" or os.environ.get("VERIF_EAGER_ALL") == "1") else 2
+        scenarios = scenarios + [eager(l) for l in plain[::step]]
     reals = [run_real(l) for l in scenarios]
     models = [m.split(" ## ") for m in run_driver(scenarios)]
     fails, div = [], []
